@@ -209,7 +209,7 @@ def check_reference(rec):
                 raise MachineryError("TreeEvents transcription disagrees with TLC: %r vs %r" % (mine[:6], rec["ev"][:6]))
 
 
-def replay_tree(ck, judge, T, conv, strip, imgw, rep, label, sample=False, more_codecs=False):
+def replay_tree(ck, judge, T, conv, strip, imgw, rep, label, sample=False, more_codecs=False, tc=1):
     con = C.Concrete(rep)
     pages, nums = C.build_direct(T, con)
     con.nums = nums
@@ -220,12 +220,23 @@ def replay_tree(ck, judge, T, conv, strip, imgw, rep, label, sample=False, more_
         raise MachineryError("realiser self-check: the tree built from LT objects does not project back onto the model tree")
     rp = {"tree": T, "conv": conv, "strip": strip, "imgw": imgw, "rep": rep, "origin": label}
     what = "tree %s" % "/".join(n["k"] for n in T)
-    try:
-        real_s = C.run_converter(pages, conv, "text", None, strip, imgw)
-    except Exception as e:  # noqa: BLE001
-        ck.violation("exception:" + type(e).__name__, "%s converter raised %r on %s" % (conv, e, what), rp)
-        return
+    # TextConverter on a text sink is given the codec the model chose (tc): the characters must be written unchanged
+    # whatever that codec could express; the binary sinks are replayed once per tree (with tc = utf-8)
+    tcodecs = [C.TEXT_SINK_CODEC[tc]] + (["cp1252"] if tc == 3 else []) if conv == "text" else [None]
     ideal = con.text(C.model_chars(T, conv, strip, imgw, set()))
+    for tcodec in tcodecs:
+        try:
+            real_s = C.run_converter(pages, conv, "text", None, strip, imgw, text_codec=tcodec)
+        except Exception as e:  # noqa: BLE001
+            ck.violation("exception:" + type(e).__name__, "%s converter raised %r on %s" % (conv, e, what), rp)
+            return
+        if conv == "text" and real_s != ideal:
+            ck.violation("text-sink:codec:%s" % tcodec, "text output of %s on a TEXT sink with codec=%r is %r; the characters are %r"
+                         % (what, tcodec, real_s[:80], ideal[:80]), dict(rp, tc=tc, text_codec=tcodec))
+            return
+    if conv == "text" and tc != 1:
+        ck.case(1, None)
+        return
     ok = judge.text_sink(conv, real_s, ideal, lambda d: con.text(C.model_chars(T, conv, strip, imgw, d)),
                          lambda: C.real_tree_events(Tp, objs, strip, imgw), rp, what, strip=strip)
     if conv == "xml" and ok:
@@ -300,7 +311,7 @@ def direction_a_model(ck, dev, judge):
                     continue            # as-coded outputs are recomputed by the (now validated) transcription
                 # the sinks config is realised with the representative set that has a CJK ideograph (hz / iso2022_jp can carry it)
                 replay_tree(ck, judge, rec["T"], rec["conv"], rec["strip"], rec["imgw"], 1 if label == "sinks" else n, label,
-                            sample=(n % 9973 == 1), more_codecs=(label == "sinks"))
+                            sample=(n % 9973 == 1), more_codecs=(label == "sinks"), tc=rec["tc"])
                 ck.replayed += 1
         os.remove(emit)
         if n != res.emitted or n == 0:
@@ -316,7 +327,7 @@ def teeth(ck):
     if ck.tier == "quick":
         return teeth_quick(ck)
     pairs = [("FigureNameRaw", "P_XMLWellFormed"), ("TextSinkUtf8", "P_SinkIndependent"), ("BomPerWrite", "P_XMLWellFormed"),
-             ("AsciiBypass", "P_SinkIndependent")]
+             ("AsciiBypass", "P_SinkIndependent"), ("TextSinkCodecFilter", "P_TextIsTreeText")]
     if ck.tier == "thorough":
         pairs += [("BomPerWrite", "P_SinkIndependent"), ("FigureNameRaw", "P_XMLParsesBackToTree")]
     found = {}
@@ -326,8 +337,8 @@ def teeth(ck):
         with open(wrapper, "w") as f:
             f.write('---- MODULE %s ----\nEXTENDS MC_Converters\nTheDevs == {{"%s"}}\nTheKinds == {"page", "figure", "char"}\n====\n' % (mod, d))
         cfg = write_cfg(os.path.join(ck.tmp, mod + ".cfg"),
-                        constants={"MaxNodes": 3, "Strings": "<- " + ("StrSinks2" if d == "AsciiBypass" else "Palette2"), "Kinds": "<- TheKinds",
-                                   "DevChoices": "<- TheDevs", "ShiftSinks": "TRUE" if d == "AsciiBypass" else "FALSE"},
+                        constants={"MaxNodes": 3, "Strings": "<- " + ("StrSinks2" if d in ("AsciiBypass", "TextSinkCodecFilter") else "Palette2"), "Kinds": "<- TheKinds",
+                                   "DevChoices": "<- TheDevs", "ShiftSinks": "TRUE" if d in ("AsciiBypass", "TextSinkCodecFilter") else "FALSE"},
                         invariants=[inv])
         res = run_tlc(wrapper, cfg, workers=2, timeout=600, lib=os.path.join(SPECS, "conv"), env=JVM)
         ck.add_tlc(res, "counterexample search: %s alone against %s" % (d, inv))
@@ -373,6 +384,8 @@ def hostile_strings(tier, rng):
     out += ["1+1", "a~b", "ABCDEF+Name", "中a", "+中~", "中文+a~"]
     # format metacharacters: a name or text that is itself a % template or a str.format template
     out += ["%%", "%s", "%d", "a%", "100%", "{0}", "{}", "%(a)s", "{a"]
+    # characters narrow codecs (latin-1, ascii, cp1252) cannot express: Greek, CJK, the euro sign
+    out += ["αβγ", "中文", "€5", "é€α"]
     return out
 
 
@@ -414,6 +427,15 @@ def judge_document(ck, judge, data, lakey, what, rp0, convs=("text", "xml"), sin
                 bad = judge.xml_predicates(real_s, lambda: C.real_tree_events(Tp, objs, strip, False), rp, what, strip=strip)
                 if bad:
                     ck.violation("xml:" + bad.split(":")[0], "xml output of %s equals the intended model's but fails %s" % (what, bad), rp)
+            if conv == "text":
+                # a TEXT sink takes characters: whatever `codec` is passed along, they arrive unchanged
+                for tcodec in ("latin-1", "ascii", "cp1252"):
+                    got = run_high_level(data, "text", "text", tcodec, la, False)
+                    n += 1
+                    if got != ideal:
+                        ck.violation("text-sink:codec:%s" % tcodec, "extract_text_to_fp(text, StringIO, codec=%r) of %s is not the text of the hierarchy"
+                                     % (tcodec, what), dict(rp, text_codec=tcodec, observed=got[:2000]))
+                        break
             if not sinks:
                 continue
             for e, codec, _ in CODECS:
@@ -468,6 +490,11 @@ def direction_a_pdf(ck, dev, judge):
         if txt != C.real_tree_text(Tp):
             ck.violation("text:extract_text", "extract_text() is not the in-order text of the hierarchy",
                          {"strings": part, "pdf": data, "observed": txt[:2000]})
+        for tcodec in ("latin-1", "ascii"):
+            ck.case(1, None)
+            if extract_text(io.BytesIO(data), codec=tcodec) != txt:
+                ck.violation("text:extract_text:codec:%s" % tcodec, "extract_text(codec=%r) differs from extract_text()" % tcodec,
+                             {"strings": part, "pdf": data})
         if docs == 1:
             ck.sample({"hostile_strings": part[:6], "pdf_bytes": len(data), "extract_text": txt[:160]})
     ck.extra["generated_documents"] = docs
